@@ -438,7 +438,7 @@ func Discharge(obls []*Obligation, tmo time.Duration, workers int, dir string) [
 	// second chance for undecided obligations: fewer workers (less contention), three times the budget
 	var retry []int
 	for i, r := range out {
-		if !r.OK && (r.R.Status == "timeout" || r.R.Status == "unknown") && !obls[i].Vacuity {
+		if !r.OK && (r.R.Status == "timeout" || r.R.Status == "unknown") && !obls[i].Vacuity && !obls[i].NoRetry {
 			retry = append(retry, i)
 		}
 	}
